@@ -33,8 +33,9 @@ def run(ctx):
     specs += opskit.persistent_specs(ctx.rng, ctx.n(20, 200))  # one operator object per kind for the whole sequence, 0 < p < 1
     specs += opskit.large_population_specs(ctx.rng, ctx.n(3, 12))
     specs += opskit.new_species_specs(ctx.rng, ctx.n(8, 80))
+    specs += opskit.threshold_population_specs(ctx.rng, [257] if ctx.quick else [257, 513])
     specs += opskit.twin_pipeline_specs(ctx.rng, ctx.n(15, 150))
-    for _ in range(ctx.n(150, 3000)):
+    for _ in range(ctx.n(110, 3000)):
         spec = opskit.random_spec(ctx.rng)
         # histories matter: make sure most sequences contain a second speciation after something was recorded
         if ctx.rng.random() < 0.5:
